@@ -137,8 +137,12 @@ func (s *TimerQueue) schedule(deadline, period int64, r Runnable) int {
 	s.refer[id] = node
 	s.guard.Unlock()
 
-	// send without holding the mutex: the worker needs it to expire timers
-	s.pendingAdd <- node
+	// send without holding the mutex: the worker needs it to expire timers;
+	// after Shutdown nobody receives any more
+	select {
+	case s.pendingAdd <- node:
+	case <-s.done:
+	}
 	return id
 }
 
@@ -152,8 +156,12 @@ func (s *TimerQueue) Cancel(id int) bool {
 	s.guard.Unlock()
 
 	if found {
-		// send without holding the mutex: the worker needs it to expire timers
-		s.pendingDel <- node
+		// send without holding the mutex: the worker needs it to expire timers;
+		// after Shutdown nobody receives any more
+		select {
+		case s.pendingDel <- node:
+		case <-s.done:
+		}
 	}
 	return found
 }
@@ -219,7 +227,10 @@ func (s *TimerQueue) tick(t time.Time) {
 		if node.period > 0 {
 			s.deliverRepeating(node)
 		} else {
-			s.C <- node.r
+			select {
+			case s.C <- node.r:
+			case <-s.done: // Shutdown while waiting for the consumer
+			}
 		}
 	}
 }
